@@ -2,6 +2,7 @@
 import sys
 
 from sa import rules_r6b as R6B
+from sa import rules_repr as RR2
 from sa import report, effects as E, rules_state as RS, rules_registry as RR
 from sa import rules_extra as RX
 
@@ -37,6 +38,7 @@ def run(ctx, repo):
     ctx.call(R6B.r_no_import_machinery, repo)
     ctx.call(R6B.r_no_module_getattr, repo)
     ctx.call(R6B.r_per_document_store, repo)
+    ctx.call(RR2.r_no_nondeterminism, repo)
 
 
 if __name__ == '__main__':
